@@ -40,6 +40,38 @@ func runRX3(c *load.Ctx, r *report.RuleResult) {
 		r.Unk("anchor|regex.Schema.doCompile", "", "not found")
 		return
 	}
+	// the loop may live in a helper of the package that doCompile calls (`findPattern`)
+	hasBoolLoop := func(f *ssa.Function) bool {
+		for _, b := range f.Blocks {
+			back := false
+			for _, p := range b.Preds {
+				if b.Dominates(p) {
+					back = true
+				}
+			}
+			if !back {
+				continue
+			}
+			for _, ins := range b.Instrs {
+				if phi, ok := ins.(*ssa.Phi); ok && isBoolType(phi.Type()) {
+					return true
+				}
+			}
+		}
+		return false
+	}
+	origFn := fn
+	if !hasBoolLoop(fn) {
+		for _, b := range fn.Blocks {
+			for _, ins := range b.Instrs {
+				if call, ok := ins.(*ssa.Call); ok {
+					if h := call.Call.StaticCallee(); h != nil && h.Blocks != nil && load.FuncPkgRel(h) == "notations/regex" && hasBoolLoop(h) {
+						fn = h
+					}
+				}
+			}
+		}
+	}
 	pos := c.Pos(fn.Pos())
 	// the loop: a header with a boolean phi
 	var header *ssa.BasicBlock
@@ -183,6 +215,16 @@ func runRX3(c *load.Ctx, r *report.RuleResult) {
 								if sl, ok := v.(*ssa.Slice); ok {
 									res.stored = sl
 								}
+							}
+						}
+						// a helper hands the pattern back instead of storing it
+						if x, ok := ins.(*ssa.Return); ok && len(x.Results) >= 1 {
+							v := x.Results[0]
+							if cv, ok := v.(*ssa.Convert); ok {
+								v = cv.X
+							}
+							if sl, ok := v.(*ssa.Slice); ok {
+								res.stored = sl
 							}
 						}
 					}
@@ -360,10 +402,33 @@ func runRX3(c *load.Ctx, r *report.RuleResult) {
 				base = sl.X
 			}
 			isContent := false
-			if call, isCall := base.(*ssa.Call); isCall {
-				if sc := call.Call.StaticCallee(); sc != nil && sc.Name() == "Content" && load.FuncPkgRel(sc) == "fs" {
-					isContent = true
+			isContentCall := func(v ssa.Value) bool {
+				if call, isCall := v.(*ssa.Call); isCall {
+					if sc := call.Call.StaticCallee(); sc != nil && sc.Name() == "Content" && load.FuncPkgRel(sc) == "fs" {
+						return true
+					}
 				}
+				return false
+			}
+			if isContentCall(base) {
+				isContent = true
+			}
+			if prm, isParam := base.(*ssa.Parameter); isParam && fn != origFn {
+				// the loop lives in a helper: every call of it in doCompile hands it the content
+				idx := -1
+				for i, p := range fn.Params {
+					if p == prm {
+						idx = i
+					}
+				}
+				sites := callSites(origFn, fn)
+				all := len(sites) > 0 && idx >= 0
+				for _, cs := range sites {
+					if idx >= len(cs.Call.Args) || !isContentCall(cs.Call.Args[idx]) {
+						all = false
+					}
+				}
+				isContent = all
 			}
 			if isContent {
 				r.OK("terminator|text", c.Pos(elem.Pos()), "the loop reads the file's Content() itself")
